@@ -821,7 +821,8 @@ func wirNonZero(t reflect.Type, rng *rand.Rand, avoid any) any {
 		if wirEquiv(p, zero, time.Now()) && t.NumField() > 0 && try < 50 {
 			continue // want something that differs from new(T) after the round trip
 		}
-		if avoid != nil && reflect.DeepEqual(p.Interface(), avoid) && try < 50 {
+		// must differ from `avoid` even after a JSON round trip (absent versus empty lists are the same there)
+		if avoid != nil && (wirEquiv(p, reflect.ValueOf(avoid), time.Now()) || wirEquiv(reflect.ValueOf(avoid), p, time.Now())) && try < 50 {
 			continue
 		}
 		return p.Interface()
